@@ -18,7 +18,7 @@ from engine.pyvc.values import *
 from engine.pyvc import models
 from engine.pyvc.models import register
 from engine.pyvc.loops import LoopSpec
-from engine.pyvc.harness import toolkit, raw, where, new_engine, run_paths, path_obligations, register_fn, note_engine, qualname, exc_note, sect
+from engine.pyvc.harness import local_roles, toolkit, raw, where, new_engine, run_paths, path_obligations, register_fn, note_engine, qualname, exc_note, sect
 
 ID = "C09"
 ENGINE = "PyVC"
@@ -130,7 +130,8 @@ def mk_gen(E, links=None):
         "clck_src": SInt(z3.Int("clck_src")), "ctr_interval": cg.CLCKGen.GSM_FRAME_US / cg.CLCKGen.SEC_DELAY_US,
         "clck_handler": None, "sched_rr_prio": None})
     E.assume(z3.And(z3.Int("ind_period") >= 1, z3.Int("clck_start") >= 0, z3.Int("clck_start") < H, z3.Int("clck_src") >= 0, z3.Int("clck_src") < H))
-    return g
+    from engine.pyvc.harness import bind_props
+    return bind_props(E, g)
 
 
 def build(run, prop=ID):
@@ -254,28 +255,38 @@ def build_worker(run, prop, E):
         return None
     E.summaries = {"clck_gen.CLCKGen.send_clck_ind": tick_summary}
 
+    # locals of _worker bound by use: the deadline is the monotonic reading that is advanced with `+=`; the other reading is "now"
+    lr = local_roles(f)
+    mono = lr["assigned_call"].get("monotonic_ns", [])
+    dl = [x for x in mono if x in lr["aug_added"]]
+    if len(dl) != 1:
+        raise Unsupported("_worker: cannot identify the deadline variable (monotonic readings %s, advanced %s)" % (mono, lr["aug_added"]))
+    TN = dl[0]
+    TREAD = ([x for x in mono if x != TN] or ["t"])[0]
+    TTICK = (lr["assigned_call"].get("int") or ["t_tick"])[0]
+
     def havoc(E, fr, i):
-        fr.locals["t_next"] = SInt(E.fresh_int("t_next"))
-        for k in ("t", "dt"):
+        fr.locals[TN] = SInt(E.fresh_int("t_next"))
+        for k in (TREAD, "dt"):
             fr.locals.pop(k, None)
         E.ghost["now"] = E.fresh_int("now")
         E.ghost["ticks"] = E.fresh_int("ticks")
         E.ghost["base"], E.ghost["k0"] = E.fresh_int("base"), E.fresh_int("k0")
-        E.ghost["pre"] = (fr.locals["t_next"].t, E.ghost["ticks"])
+        E.ghost["pre"] = (fr.locals[TN].t, E.ghost["ticks"])
         E.ghost["fire_time"] = None
         E.ghost["waits"] = []
 
     def inv(E, fr, i):
-        tn = Z(fr.locals["t_next"])
+        tn = Z(fr.locals[TN])
         g = E.ghost
         return z3.And(g["ticks"] == i, g["k0"] >= 0, g["k0"] <= g["ticks"], tn == g["base"] + (g["ticks"] - g["k0"]) * T,
                       tn <= g["now"], g["now"] < 2 ** 63, g["base"] >= 0,          # the deadline just served is not in the future: waits stay below one period
-                      z3.BoolVal(fr.locals.get("t_tick") == T))
+                      z3.BoolVal(fr.locals.get(TTICK) == T))
 
     def step(E, fr, i):
         g = E.ghost
         tn_pre, k_pre = g["pre"]
-        tn = Z(fr.locals["t_next"])
+        tn = Z(fr.locals[TN])
         overrun = tn != tn_pre + T
         # resync: a new base at the current deadline
         g["base"] = z3.If(overrun, tn, g["base"])
@@ -287,14 +298,14 @@ def build_worker(run, prop, E):
             E.require("tick_fired", z3.BoolVal(False), kind="post")
         E.require("deadline_absolute_or_resynchronised_to_now", z3.Or(tn == tn_pre + T, z3.And(tn_pre + T < tn, tn <= g["now"])), kind="post")
         waits = g.get("waits", [])
-        t_read = Z(fr.locals["t"]) if "t" in fr.locals else None
+        t_read = Z(fr.locals[TREAD]) if TREAD in fr.locals else None
         if len(waits) == 1 and t_read is not None:
             E.require("waits_exactly_until_deadline_or_not_at_all", waits[0] == z3.If(tn_pre + T >= t_read, tn_pre + T - t_read, 0), kind="post")
             E.require("deadline_not_left_in_the_past_after_overrun", tn >= t_read, kind="post")
         else:
             E.require("waits_exactly_until_deadline_or_not_at_all", z3.BoolVal(False), kind="post")
     def init(E, fr):
-        E.ghost["base"] = Z(fr.locals["t_next"])      # the deadline sequence starts at the first clock reading
+        E.ghost["base"] = Z(fr.locals[TN])      # the deadline sequence starts at the first clock reading
         E.ghost["k0"] = z3.IntVal(0)
         E.ghost["ticks"] = z3.IntVal(0)
     E.loop_specs = {("clck_gen.CLCKGen._worker", 1): LoopSpec("worker_loop", havoc, inv, ghost_step=step, init=init)}
@@ -357,7 +368,9 @@ def build_start_stop(run, prop, E):
             tag = {"what": "start"}
             g = ctx["self"]
             if out[0] == "raise":
-                run.add(Obligation(prop, qualname(fs), "AssertionError_iff_already_started", p.pc, z3.BoolVal(has_thread and issubclass(out[1].cls, AssertionError)),
+                # a second start() may be refused by any exception (the statement only speaks of stop()/start() cycles): it must never
+                # happen for a stopped generator, and it must not leave a second thread behind
+                run.add(Obligation(prop, qualname(fs), "start_refused_only_when_already_started", p.pc, z3.BoolVal(has_thread and issubclass(out[1].cls, Exception)),
                                    kind="post", case=cs, where=where(fs), tag=tag))
                 continue
             th = g.attrs.get("_thread")
